@@ -312,21 +312,21 @@ var (
 	TInt = &Type{K: KInt}
 )
 
-func Sc(k Kind, named bool) *Type { return &Type{K: k, Named: named} }
-func NBool(named bool, b bool) *Node { return &Node{T: Sc(KBool, named), B: b} }
-func NInt(k Kind, named bool, i int64) *Node { return &Node{T: Sc(k, named), I: i} }
-func NUint(k Kind, named bool, u uint64) *Node { return &Node{T: Sc(k, named), U: u} }
+func Sc(k Kind, named bool) *Type                { return &Type{K: k, Named: named} }
+func NBool(named bool, b bool) *Node             { return &Node{T: Sc(KBool, named), B: b} }
+func NInt(k Kind, named bool, i int64) *Node     { return &Node{T: Sc(k, named), I: i} }
+func NUint(k Kind, named bool, u uint64) *Node   { return &Node{T: Sc(k, named), U: u} }
 func NFloat(k Kind, named bool, f float64) *Node { return &Node{T: Sc(k, named), F: f} }
-func NStr(named bool, s string) *Node { return &Node{T: Sc(KString, named), S: s} }
-func NJSON(s string) *Node { return &Node{T: Sc(KJSONNumber, false), S: s} }
-func NNilAny() *Node { return &Node{T: TAny, Nil: true} }
+func NStr(named bool, s string) *Node            { return &Node{T: Sc(KString, named), S: s} }
+func NJSON(s string) *Node                       { return &Node{T: Sc(KJSONNumber, false), S: s} }
+func NNilAny() *Node                             { return &Node{T: TAny, Nil: true} }
 func NAny(x *Node) *Node {
 	if x.T.K == KIface {
 		return x
 	}
 	return &Node{T: TAny, Items: []*Node{x}}
 }
-func NPtr(x *Node) *Node { return &Node{T: &Type{K: KPtr, Elem: x.T}, Items: []*Node{x}} }
+func NPtr(x *Node) *Node    { return &Node{T: &Type{K: KPtr, Elem: x.T}, Items: []*Node{x}} }
 func NNilPtr(t *Type) *Node { return &Node{T: &Type{K: KPtr, Elem: t}, Nil: true} }
 func NSlice(elem *Type, items ...*Node) *Node {
 	return &Node{T: &Type{K: KSlice, Elem: elem}, Items: conformAll(elem, items)}
